@@ -184,45 +184,47 @@ def run_harness(binary, replay=None, seed=1, nk=100, nt=100):
 # (flag_coverage): a numeric flag of a sample that no table varies fails the check.
 P = collections.OrderedDict()
 _XY = [1, 17, 33, 64, 100, 200, 256, 257, 300]
+_XYL = [512, 1024, 1040]   # 1040 floats = one 4 KiB page + 64 bytes: the larger dimension crosses a page boundary of its vector
+# an iteration-like value may be given relative to a size parameter drawn before it: (flag, delta, cap) -> min(value(flag) + delta, cap)
 P['fir'] = dict(params=[('length', [1, 63, 64, 65, 100, 199, 255, 256, 257, 1000, 4096], [8192, 100000]),
-                        ('taps', [1, 2, 16, 33, 64, 128, 300], [])],
+                        ('taps', [1, 2, 16, 33, 64, 128, 300], [('length', 0, 300), ('length', 1, 300)])],
                 cdna3=True, multi=True, unified=True, um=True, timing=True)
 P['aes'] = dict(params=[('length', [16, 64, 1024, 4096], [65536])], cdna3=True, multi=True, unified=True, um=True, timing=True)
-P['atax'] = dict(params=[('x', _XY, [1024]), ('y', _XY, [1024])], cdna3=True, multi=True, unified=True, um=True, timing=True)
-P['bicg'] = dict(params=[('x', _XY, [1024]), ('y', _XY, [1024])], cdna3=True, multi=True, unified=True, um=True, timing=True)
-P['bfs'] = dict(params=[('node', [2, 63, 100, 257, 1000, 1024], [2048, 4096]), ('degree', [1, 3, 5, 8], []), ('depth', [0, 1, 2, 5], [])],
+P['atax'] = dict(params=[('x', _XY, _XYL), ('y', _XY, _XYL)], cdna3=True, multi=True, unified=True, um=True, timing=True)
+P['bicg'] = dict(params=[('x', _XY, _XYL), ('y', _XY, _XYL)], cdna3=True, multi=True, unified=True, um=True, timing=True)
+P['bfs'] = dict(params=[('node', [2, 63, 100, 257, 1000, 1024], [2048, 4096]), ('degree', [1, 3, 5, 8], []), ('depth', [0, 1, 2, 5], [('node', 0, 130), ('node', 1, 130)])],
                 cdna3=True, multi=False, unified=True, um=True, timing=True, ignored_flags=['load-graph'])
 P['bitonicsort'] = dict(params=[('length', [2, 64, 256, 512], [4096]), ('order-asc', ['true', 'false'], [])],
                         cdna3=True, multi=True, unified=True, um=True, timing=False)
 P['fastwalshtransform'] = dict(params=[('length', [2, 64, 256, 512, 2048], [8192, 65536])], cdna3=True, multi=True, unified=True, um=True, timing=False)
-P['fft'] = dict(params=[('bytes', [8192, 65536, 131072], [1048576]), ('MB', [None, 1, 2], []), ('passes', [1, 2, 3], [])],  # -bytes overrides -MB; `fft -MB=1` alone is in the core
+P['fft'] = dict(params=[('bytes', [8192, 65536, 131072], [1048576]), ('MB', [None, 1, 2], []), ('passes', [0, 1, 2, 3], [])],  # -bytes overrides -MB; `fft -MB=1` alone is in the core
                 cdna3=True, multi=True, unified=True, um=True, timing=True)
-P['floydwarshall'] = dict(params=[('node', [8, 16, 17, 24, 32, 48], [64, 128]), ('iter', [0, 1, 3, 5], [])],
+P['floydwarshall'] = dict(params=[('node', [8, 16, 17, 24, 32, 48], [64, 128]), ('iter', [0, 1, 3, 5], [('node', -1, 130), ('node', 0, 130), ('node', 1, 130), ('node', 9, 140), 200])],
                           cdna3=True, multi=True, unified=True, um=True, timing=True)
-P['kmeans'] = dict(params=[('points', [1, 65, 100, 256, 1000], [4096]), ('features', [1, 3, 8, 34, 64], []), ('clusters', [1, 2, 5, 7, 16], []),
-                           ('max-iter', [1, 2, 3, 5, 10], [])], cdna3=True, multi=True, unified=True, um=True, timing=True)
-P['matrixmultiplication'] = dict(params=[('x', [16, 32, 48, 64, 96], [128, 256]), ('y', [16, 32, 48, 64], [128, 200]), ('z', [16, 32, 48, 64], [128, 256])],
+P['kmeans'] = dict(params=[('points', [1, 65, 100, 256, 1000], [1040, 4096]), ('features', [1, 3, 8, 34, 64], [1040]), ('clusters', [1, 2, 5, 7, 16], []),
+                           ('max-iter', [0, 1, 2, 3, 5, 10], [('points', 0, 130), ('points', 1, 130)])], cdna3=True, multi=True, unified=True, um=True, timing=True)
+P['matrixmultiplication'] = dict(params=[('x', [16, 32, 48, 64, 96], [128, 256, 1056]), ('y', [16, 32, 48, 64], [128, 200, 1040]), ('z', [16, 32, 48, 64], [128, 256, 1056])],
                                  cdna3=True, multi=True, unified=True, um=True, timing=True)
 P['matrixtranspose'] = dict(params=[('width', [64, 100, 128, 192, 256], [512, 1024])], cdna3=True, multi=True, unified=True, um=True, timing=True)
-P['nbody'] = dict(params=[('particles', [1, 64, 100, 128, 256], [512, 1024]), ('iter', [1, 2, 3, 8], [])],
+P['nbody'] = dict(params=[('particles', [1, 4, 64, 100, 128, 256], [512, 1040]), ('iter', [0, 1, 2, 3, 8], [('particles', 0, 12), ('particles', 1, 12)])],
                   cdna3=True, multi=True, unified=True, um=True, timing=True)
 P['nw'] = dict(params=[('length', [64, 128, 192], [])], cdna3=True, multi=False, unified=False, um=False, timing=False)
 P['pagerank'] = dict(params=[('node', [1, 16, 32, 65, 100, 256], [1024, 2048]), ('sparsity', [1, 0.5, 0.1, 0.05, 0.01], []),
-                             ('iterations', [1, 2, 3, 5, 16], [])], cdna3=True, multi=True, unified=True, um=True, timing=True)
+                             ('iterations', [0, 1, 2, 3, 5, 16], [('node', 0, 70), ('node', 1, 70)])], cdna3=True, multi=True, unified=True, um=True, timing=True)
 P['relu'] = dict(params=[('length', [1, 63, 64, 65, 1000, 4097], [100000])], cdna3=True, multi=True, unified=True, um=True, timing=True)
-P['simpleconvolution'] = dict(params=[('width', [1, 16, 17, 30, 64, 100], [254, 512]), ('height', [1, 16, 17, 30, 64, 100], [254, 300]),
+P['simpleconvolution'] = dict(params=[('width', [1, 16, 17, 30, 64, 100], [254, 512, 1040]), ('height', [1, 16, 17, 30, 64, 100], [254, 300, 1040]),
                                       ('mask-size', [1, 3, 5, 7, 9], [])], cdna3=True, multi=True, unified=True, um=True, timing=True)
-P['spmv'] = dict(params=[('dim', [8, 63, 64, 100, 128, 129, 256], [1024, 2048]), ('sparsity', [1, 0.1, 0.05, 0.02, 0.005], [])],
+P['spmv'] = dict(params=[('dim', [8, 63, 64, 100, 128, 129, 256], [1024, 1040, 2048]), ('sparsity', [1, 0.1, 0.05, 0.02, 0.005], [])],
                  cdna3=True, multi=True, unified=True, um=False, timing=True)
-P['stencil2d'] = dict(params=[('row', [34, 64, 66], []), ('col', [64, 66, 127, 128, 192], [256, 384]), ('iter', [1, 3, 5], [])],
+P['stencil2d'] = dict(params=[('row', [34, 64, 66], []), ('col', [64, 66, 127, 128, 192], [256, 384, 1088]), ('iter', [0, 1, 3, 5], [('row', 0, 130), ('row', 6, 130)])],
                       cdna3=True, multi=True, unified=True, um=True, timing=True)
-P['vectoradd'] = dict(params=[('width', [1, 63, 65, 100, 1000, 4096], [65536]), ('height', [1, 2, 3], [64])],
+P['vectoradd'] = dict(params=[('width', [1, 3, 63, 65, 100, 1000, 4096], [1040, 65536]), ('height', [1, 2, 3], [64, 1040])],
                       cdna3=True, multi=True, unified=True, um=False, timing=False)
-P['conv2d'] = dict(params=[('N', [1, 2, 4], []), ('C', [1, 3, 8], []), ('H', [5, 8, 9, 28], [32]), ('W', [5, 8, 11, 28], [32]), ('output-channel', [1, 2, 3, 8], []),
+P['conv2d'] = dict(params=[('N', [1, 2, 4], []), ('C', [1, 3, 8], []), ('H', [5, 8, 9, 28], [32, 36]), ('W', [5, 8, 11, 28], [32, 36]), ('output-channel', [1, 2, 3, 8], []),
                            ('kernel-height', [1, 3, 5], []), ('kernel-width', [1, 3, 5], []), ('pad-x', [0, 1, 2], []), ('pad-y', [0, 1, 2], []),
                            ('stride-x', [1, 2, 3], []), ('stride-y', [1, 2, 3], []), ('enable-backward', [None, None, 'true'], [])],
                    cdna3=False, multi=False, unified=False, um=False, timing=False)
-P['im2col'] = dict(params=[('N', [1, 2, 4], []), ('C', [1, 3, 8], []), ('H', [5, 8, 9, 28], [32]), ('W', [5, 8, 11, 28], [32]), ('kernel-height', [1, 3, 5], []),
+P['im2col'] = dict(params=[('N', [1, 2, 4], []), ('C', [1, 3, 8], []), ('H', [5, 8, 9, 28], [32, 36]), ('W', [5, 8, 11, 28], [32, 36]), ('kernel-height', [1, 3, 5], []),
                            ('kernel-width', [1, 3, 5], []), ('pad-x', [0, 1, 2], []), ('pad-y', [0, 1, 2], []), ('stride-x', [1, 2, 3], []), ('stride-y', [1, 2, 3], []),
                            ('dilate-x', [1, 2, 3], []), ('dilate-y', [1, 2, 3], [])], cdna3=False, multi=False, unified=False, um=False, timing=False)
 P['memcopy'] = dict(params=[], cdna3=False, multi=False, unified=False, um=False, timing=False)
@@ -298,6 +300,10 @@ KNOWN = [
               '-sparsity=0.5 -iterations=1 -unified-gpus=1,2; relu, kmeans, matrixmultiplication, simpleconvolution -gpus=1,2 pass'),
     dict(id='unified-memory-timing-multi-gpu-hang', witness='relu -length=64 -gpus=1,2,3 -use-unified-memory -timing', timeout=30, hang=True,
          match=lambda c: False, text='same class, >= 3 discrete GPUs witness'),
+    dict(id='kmeans-max-iter-zero', witness='kmeans -points=100 -features=8 -clusters=3 -max-iter=0', timeout=60,
+         match=lambda c: c['w'] == 'kmeans' and vals(c).get('max-iter', 5) == 0,
+         text='kmeans -max-iter=0 panics in host code (index out of range [-8]) instead of returning the initial clustering or rejecting '
+              'the value; pagerank -iterations=0, stencil2d -iter=0, nbody -iter=0, fft -passes=0 and floydwarshall -iter=0 (= all) are accepted'),
     dict(id='conv2d-backward-stride-or-non-square', witness='conv2d -enable-backward=true -stride-x=2', timeout=60,
          match=lambda c: c['w'] == 'conv2d' and vals(c).get('enable-backward') == 'true' and
          (vals(c).get('stride-x', 1) > 1 or vals(c).get('stride-y', 1) > 1 or vals(c).get('H', 28) != vals(c).get('W', 28)),
@@ -334,7 +340,7 @@ KNOWN = [
               '(conv2d -N=2 -H=9 -pad-y=1 with the default W=28; -N=1 -C=3 -H=28 -W=8 -kernel-width=1 -pad-x=1: vAddr 0x7e3): a kernel of the convolution addresses memory outside '
               'its buffers, which faults only when the address leaves the mapped pages (N=1, square inputs, W=8/11 pass)'),
     dict(id='stencil2d-column-count', witness='stencil2d -row=64 -col=66', timeout=60,
-         match=lambda c: c['w'] == 'stencil2d' and vals(c).get('col', 64) not in ((64, 128, 192, 256, 384) if c['arch'] == 'cdna3' else (64, 127, 128, 192, 256, 384)),
+         match=lambda c: c['w'] == 'stencil2d' and vals(c).get('col', 64) not in ((64, 128, 192, 256, 384, 1088) if c['arch'] == 'cdna3' else (64, 127, 128, 192, 256, 384, 1088)),
          text='stencil2d with a column count other than 64/127/128/192 (e.g. -col=66: one full 64-lane work-group) makes the emulator '
               'run into undecodable/unimplemented instructions and panic; cause not isolated'),
     dict(id='stencil2d-row-count', witness='stencil2d -row=66 -col=64', timeout=60,
@@ -424,10 +430,13 @@ def draw(rng):
     if w == 'vectoradd':  # mi300a timing: the one class the acceptance matrix lists
         classes += [dict(arch='cdna3', timing=True, gpu='mi300a'), dict(arch='cdna3', timing=True, gpu='mi300a', gpus='1,2', unified=True)]
     cls = rng.choice(classes)
-    toks = []
+    toks, chosen = [], {}
     for k, vs, large in d['params']:
         v = rng.choice(vs + ([] if cls.get('timing') else large))
+        if isinstance(v, tuple):   # relative to a size parameter drawn before
+            v = max(0, min(chosen.get(v[0], 1) + v[1], v[2]))
         if v is not None:
+            chosen[k] = v
             toks.append('-%s=%s' % (k, v))
     return mk(w, ' '.join(toks), **cls)
 
@@ -517,6 +526,19 @@ def core_matrix():
         mk('matrixmultiplication', '-x=32 -y=32 -z=32', timing=True, gpus='1,2', um=True), mk('matrixtranspose', '-width=64', timing=True, gpus='1,2', um=True),
         mk('simpleconvolution', '-width=30 -height=30', timing=True, gpus='1,2', um=True), mk('pagerank', '-node=65 -sparsity=0.5 -iterations=1', timing=True, gpus='1,2', um=True),
         mk('simpleconvolution', '-width=64 -height=64 -mask-size=1', gpus='1,2,3'),
+    ]
+    core += [  # tall and wide shapes whose larger dimension crosses a 4 KiB page of its vector; iteration counts 0, = size, > size
+        mk('atax', '-x=1040 -y=1024'), mk('atax', '-x=1024 -y=1040', arch='cdna3'), mk('bicg', '-x=1040 -y=1024'), mk('bicg', '-x=1024 -y=1040'),
+        mk('matrixmultiplication', '-x=32 -y=1040 -z=32'), mk('matrixmultiplication', '-x=1056 -y=16 -z=32'), mk('matrixmultiplication', '-x=32 -y=16 -z=1056'),
+        mk('simpleconvolution', '-width=1040 -height=30'), mk('simpleconvolution', '-width=30 -height=1040'), mk('spmv', '-dim=1040 -sparsity=0.005'),
+        mk('vectoradd', '-width=1040 -height=3'), mk('vectoradd', '-width=3 -height=1040'), mk('stencil2d', '-row=64 -col=1088'),
+        mk('kmeans', '-points=1040 -features=3 -clusters=2 -max-iter=2'), mk('kmeans', '-points=3 -features=1040 -clusters=2 -max-iter=2'),
+        mk('conv2d', '-H=36 -W=8'), mk('conv2d', '-H=8 -W=36'), mk('nbody', '-particles=1040 -iter=1'),
+        mk('floydwarshall', '-node=16 -iter=17'), mk('floydwarshall', '-node=24 -iter=30', arch='cdna3'), mk('floydwarshall', '-node=16 -iter=16'),
+        mk('floydwarshall', '-node=8 -iter=100', gpus='1,2'), mk('pagerank', '-node=16 -sparsity=0.5 -iterations=17'),
+        mk('pagerank', '-node=32 -sparsity=0.5 -iterations=0'), mk('stencil2d', '-row=64 -col=64 -iter=70'), mk('stencil2d', '-row=64 -col=64 -iter=0'),
+        mk('kmeans', '-points=10 -features=3 -clusters=2 -max-iter=11'), mk('nbody', '-particles=4 -iter=8'), mk('nbody', '-particles=64 -iter=0'),
+        mk('fft', '-bytes=8192 -passes=0'), mk('fir', '-length=16 -taps=33'), mk('bfs', '-node=63 -depth=64'),
     ]
     bad = [cfg_cmd(c) for c in core if known_class(c)]
     assert not bad, 'core configuration inside a known-finding class: %s' % bad
